@@ -1,5 +1,5 @@
 //@PROBE file=src/utils/bbox.rs test=verif_probe_bbox_polygon_c19 clauses=bbox_polygon
-//@BOUND centres {0, 1, -37.5, 1e3, 1e4} x sizes (height {1e-2, 0.1, 1, 40, 1e3} x aspect {0.1, 0.5, 1, 3}) x angles {None, 0, pi/6, pi/2, 2.5, 7.0, -1.0}; vertices against an f64 reference of the rotated rectangle computed from the box fields (tolerance 4 ulp of f32 at the coordinate magnitude), shoelace area / centroid / vertex radius against area() / centre / get_radius() (1e-4 relative); ltwh -> universal -> ltwh round trip (4 ulp-scale tolerance: 1e-5 relative to the magnitudes involved)
+//@BOUND centres {0, 1, -37.5, 1e3, 1e4} x sizes (height {1e-2, 0.1, 1, 40, 1e3} x aspect {0.1, 0.5, 1, 3}) x angles {None, 0, pi/6, pi/2, 2.5, 7.0, -1.0}; vertices against an f64 reference of the rotated rectangle computed from the box fields (tolerance 4 ulp of f32 at the coordinate magnitude), shoelace area / centroid / vertex radius against area() / centre / get_radius() (1e-4 relative); equality of both box types on pairs differing in exactly one coordinate by +-delta across the EPS boundary (position 0..1e4 x size 1e-2..1e3 independently, both argument orders); ltwh -> universal -> ltwh round trip (4 ulp-scale tolerance: 1e-5 relative to the magnitudes involved)
 #[cfg(test)]
 mod verif_probe_bbox_polygon_c19 {
     // Bounded stand-in for the representation clauses of C19 that the Kani harnesses cannot pin (sin/cos are
@@ -72,6 +72,41 @@ mod verif_probe_bbox_polygon_c19 {
                 }
             } }
         } }
+        // ---- equality: pairs that differ in exactly ONE coordinate by +-delta across the epsilon boundary, both argument orders;
+        //      position magnitude and size magnitude vary independently (the decision must follow the difference actually present
+        //      in the f32 fields: > EPS => unequal, < EPS => equal)
+        let eps = crate::EPS;
+        for pos in [0.0f32, 1.0, 37.5, 1000.0, 10000.0] { for size in [0.01f32, 1.0, 10.0, 1000.0] { for delta in [0.0f32, 0.3 * eps, 0.8 * eps, 1.5 * eps, 3.0 * eps, 30.0 * eps, 0.01] { for sign in [1.0f32, -1.0] {
+            for coord in 0..4 {
+                cases += 1;
+                let a = BoundingBox::new(pos, pos * 0.5 + 2.0, size, size * 1.5);
+                let mut b = BoundingBox::new(pos, pos * 0.5 + 2.0, size, size * 1.5);
+                let d = sign * delta;
+                match coord { 0 => b.left += d, 1 => b.top += d, 2 => b.width += d, _ => b.height += d }
+                if b.width <= 0.0 || b.height <= 0.0 { continue; }
+                let actual = match coord { 0 => (a.left - b.left).abs(), 1 => (a.top - b.top).abs(), 2 => (a.width - b.width).abs(), _ => (a.height - b.height).abs() };
+                let (ab, ba) = (a == b, b == a);
+                let name = ["left", "top", "width", "height"][coord];
+                if ab != ba { failures.push(format!("PROBE input: ltwh boxes at position {} size {} differing in {} by {}: bbox_polygon.ltwh_equality_symmetric: a==b is {}, b==a is {}", pos, size, name, actual, ab, ba)); }
+                if actual > 1.01 * eps && ab { failures.push(format!("PROBE input: ltwh boxes at position {} size {} differing in {} by {} (> EPS {}): bbox_polygon.ltwh_equality_fails_beyond_epsilon: reported equal", pos, size, name, actual, eps)); }
+                if actual < 0.99 * eps && !ab { failures.push(format!("PROBE input: ltwh boxes at position {} size {} differing in {} by {} (< EPS {}): bbox_polygon.ltwh_equality_holds_within_epsilon: reported unequal", pos, size, name, actual, eps)); }
+                if actual > 1.01 * eps { nontrivial += 1; }
+            }
+            for coord in 0..5 {
+                cases += 1;
+                let a = Universal2DBox::new(pos, pos * 0.5 + 2.0, Some(0.7), 1.5, size);
+                let mut b = Universal2DBox::new(pos, pos * 0.5 + 2.0, Some(0.7), 1.5, size);
+                let d = sign * delta;
+                match coord { 0 => b.xc += d, 1 => b.yc += d, 2 => b.angle = Some(0.7 + d), 3 => b.aspect += d, _ => b.height += d }
+                if b.aspect <= 0.0 || b.height <= 0.0 { continue; }
+                let actual = match coord { 0 => (a.xc - b.xc).abs(), 1 => (a.yc - b.yc).abs(), 2 => (a.angle.unwrap() - b.angle.unwrap()).abs(), 3 => (a.aspect - b.aspect).abs(), _ => (a.height - b.height).abs() };
+                let (ab, ba) = (a == b, b == a);
+                let name = ["xc", "yc", "angle", "aspect", "height"][coord];
+                if ab != ba { failures.push(format!("PROBE input: universal boxes at position {} size {} differing in {} by {}: bbox_polygon.universal_equality_symmetric: a==b is {}, b==a is {}", pos, size, name, actual, ab, ba)); }
+                if actual > 1.01 * eps && ab { failures.push(format!("PROBE input: universal boxes at position {} size {} differing in {} by {} (> EPS): bbox_polygon.universal_equality_fails_beyond_epsilon: reported equal", pos, size, name, actual)); }
+                if actual < 0.99 * eps && !ab { failures.push(format!("PROBE input: universal boxes at position {} size {} differing in {} by {} (< EPS): bbox_polygon.universal_equality_holds_within_epsilon: reported unequal", pos, size, name, actual)); }
+            }
+        } } } }
         eprintln!("PROBE cases={} nontrivial={}", cases, nontrivial);
         for f in failures.iter().take(12) { eprintln!("{}", f); }
         assert!(failures.is_empty(), "PROBE found {} failing inputs; first: {}", failures.len(), failures[0]);
